@@ -215,6 +215,10 @@ class ExprMixin:
                 if v is not _MISSING:
                     obj.fields[attr] = v
                     return v
+            v = self.attr_from_init(obj, attr, path)
+            if v is not _MISSING:
+                obj.fields[attr] = v
+                return v
             raise PyRaise(AttributeError, note=f"{obj!r} has no attribute {attr}")
         if isinstance(obj, SuperProxy):
             m = self.find_method(obj.after_cls, attr, skip_self=True)
@@ -261,6 +265,48 @@ class ExprMixin:
             return getattr(obj, attr)
         except AttributeError:
             raise PyRaise(AttributeError, note=f"{obj!r}.{attr}")
+
+    def attr_from_init(self, obj, attr, path):
+        """An attribute a contract did not give the object but which some `__init__` of its class hierarchy sets as
+        `self.<attr> = <expression over self and the constructor's own parameters>`: the expression is evaluated for this
+        object (the parameters are the like-named attributes).  Moving work that does not depend on the call from `__call__`
+        into the constructor therefore needs no contract change.  _MISSING when there is no such assignment or it cannot be
+        evaluated that way."""
+        if not isinstance(obj.cls, ClassVal) or getattr(self, "_deriving", None) == (id(obj), attr):
+            return _MISSING
+        for c in self.mro(obj.cls):
+            init = c.members.get("__init__") if isinstance(c, ClassVal) else None
+            if not isinstance(init, Closure):
+                continue
+            for st in init.node.body:
+                tgt, val = None, None
+                if isinstance(st, ast.Assign) and len(st.targets) == 1:
+                    tgt, val = st.targets[0], st.value
+                elif isinstance(st, ast.AnnAssign) and st.value is not None:
+                    tgt, val = st.target, st.value
+                if not (isinstance(tgt, ast.Attribute) and tgt.attr == attr and isinstance(tgt.value, ast.Name)):
+                    continue
+                params = [a.arg for a in init.node.args.posonlyargs + init.node.args.args + init.node.args.kwonlyargs]
+                if not params or tgt.value.id != params[0]:
+                    continue
+                e2 = init.env.child()
+                e2.set(params[0], obj)
+                ok = True
+                for nm in params[1:]:
+                    if nm in obj.fields:
+                        e2.set(nm, obj.fields[nm])
+                    elif any(isinstance(n, ast.Name) and n.id == nm for n in ast.walk(val)):
+                        ok = False
+                if not ok:
+                    return _MISSING
+                self._deriving = (id(obj), attr)
+                try:
+                    return self.eval(val, e2, path)
+                except (Unsupported, PyRaise):
+                    return _MISSING
+                finally:
+                    self._deriving = None
+        return _MISSING
 
     def find_method(self, cls, name, skip_self=False):
         if isinstance(cls, ClassVal):
